@@ -58,13 +58,14 @@ def exact(x: Any) -> Optional[Fraction]:
 
 def tolerance(a, b) -> Fraction:
     """The documented tolerance: 20 decimal places of the unit both operands are scaled to for the comparison, which the library
-    documents (prefix._scale_to_smaller) as the SMALLER of the two prefixes."""
+    documents (prefix._scale_to_smaller) as the SMALLER of the two prefixes - and never more than 1e-20 of the VALUES: two numbers
+    written with large prefixes which differ by thousands are not within "the 1e-20 tolerance" (hunter round 7, C14-1)."""
     from hdl21.prefix import Prefixed
 
     exps = []
     for x in (a, b):
         exps.append(x.prefix.value if isinstance(x, Prefixed) else 0)  # (plain numbers enter as UNIT)
-    return TOL * Fraction(10) ** min(exps)
+    return TOL * Fraction(10) ** min(exps + [0])
 
 
 _state = {"rec": None, "attached": False}
